@@ -12,7 +12,7 @@ from ..prov import Prov
 from ..q import FA, call_name, guard_facts, ifs_on, nfact, nfacts, walk_no_nested
 from ..resolve import resolver
 
-TECHNIQUE = "R-PROV: symbolic expansion of the property chains behind FlowSampler attributes and result-dictionary keys to canonical access paths, for every configuration of (draw_iid_live, redrawn samples) - finite space, enumerated exhaustively; R-SIB on the INS estimator definition; R-WRITERS on the provenance of every stored logL / logP field; R-ALIAS"
+TECHNIQUE = "R-PROV: symbolic expansion of the property chains behind FlowSampler attributes and result-dictionary keys to canonical access paths, for every configuration of (draw_iid_live, redrawn samples) - finite space, enumerated exhaustively; R-SIB on the INS estimator definition; R-WRITERS on the provenance of every stored logL / logP field; R-ALIAS; path-signature comparison of update_evidence with a reference implementation"
 
 NS, INS, FS = tables.NS, tables.INS, tables.FS
 ST = "nessai.evidence:_INSIntegralState"
